@@ -275,7 +275,20 @@ def register_namesakes(ctx):
     ctx.count("shortcut-names-registered-as-functions-with-a-processor", 4)
 
 
+HALF_BUILT = ["len(a)", "f(a)", "Sum(Select(a, g))", "Count(a.jets) + Max(b)", "Select(ds, lambda e: Min(e.jets.Select(lambda j: j.pt)))", "g(len(a), k=Count(b))", "a.Count()", "Sum(f(a))"]
+
+
+def half_built(ctx):
+    from func_adl.ast.aggregate_shortcuts import aggregate_node_transformer
+
+    from ..history import half_built_calls
+
+    half_built_calls(ctx, lambda t: aggregate_node_transformer().visit(t), HALF_BUILT, "aggregate_node_transformer")
+
+
 def shard_main(ctx):
+    if ctx.shard == 2 % ctx.nshards:
+        half_built(ctx)
     if ctx.shard % 3 == 2:
         register_namesakes(ctx)
     if ctx.shard in (0, 1, 3):
@@ -306,6 +319,9 @@ def shard_main(ctx):
 
 
 def replay(ctx, witness):
+    if witness.get("half_built"):
+        half_built(ctx)
+        return
     if "fold" in witness:
         judge_folds(ctx)
         return
